@@ -144,9 +144,18 @@ def _cvc5_values(m):
     return out
 
 
+DEADLINE = None      # wall-clock end of the solving budget of this run (set by discharge(); inherited by the forked workers)
+
+
+def _over_budget():
+    return DEADLINE is not None and time.time() > DEADLINE
+
+
 def solve_one(task):
     key, smt2, seed = task
     log = []
+    if _over_budget():
+        return key, "unknown", "solving budget of the run exhausted", [("budget", "unknown", 0.0)], "none"
     try:
         r, m, dt = _run_z3(smt2, Z3_FAST_MS, seed)
         log.append(("z3", r, round(dt, 3)))
@@ -154,6 +163,8 @@ def solve_one(task):
             return key, r, m, log, "z3"
     except Exception as e:
         log.append(("z3", "error:" + str(e)[:200], 0))
+    if _over_budget():
+        return key, "unknown", str(log + [("budget", "unknown", 0.0)]), log + [("budget", "unknown", 0.0)], "none"
     try:
         r, m, dt = _run_cvc5(smt2, CVC5_MS, seed, True)
         log.append(("cvc5", r, round(dt, 3)))
@@ -163,6 +174,8 @@ def solve_one(task):
             return key, "sat", _cvc5_values(m), log, "cvc5"
     except Exception as e:
         log.append(("cvc5", "error:" + str(e)[:200], 0))
+    if _over_budget():
+        return key, "unknown", str(log + [("budget", "unknown", 0.0)]), log + [("budget", "unknown", 0.0)], "none"
     try:
         r, m, dt = _run_z3(smt2, Z3_SLOW_MS, seed + 1)
         log.append(("z3-slow", r, round(dt, 3)))
@@ -342,6 +355,9 @@ def discharge(obligations, seed=0, both=False, procs=None):
             pc = list(pc) + theory_lemmas(list(pc) + [goal])
             tasks.append((f"{ob.key}#{i}", to_smt2(pc, goal, ob.info.get("witness")), seed))
     procs = procs or min(16, max(1, len(tasks)))
+    global DEADLINE
+    budget = float(os.environ.get("PYVC_SOLVE_BUDGET_S", "1800" if both else "480"))
+    DEADLINE = time.time() + budget     # obligations not decided by then are reported undecided (never as violations)
     results = {}
     partial = {}
     fn = solve_both if both else solve_one
